@@ -724,4 +724,32 @@ theorem run_safe (env : Env) (henv : EnvOk env) : ∀ (ops : List Op) (s : Sched
     obtain ⟨s', outs, h2, hi2⟩ := run_safe env henv ops s1 hi1 (fun x hx => hops x (List.mem_cons_of_mem _ hx))
     exact ⟨s', o :: outs, by simp only [run, bind, Except.bind, h1, h2]; rfl, hi2⟩
 
+/-- what an operation does to `cur_bucket`: only `tdma_sched_advance()` moves it, one step round the ring -/
+theorem step_cur (env : Env) (s : Sched) (op : Op) (hinv : Inv env s) (henv : EnvOk env) (hop : OpOk env op)
+    (s' : Sched) (out : Out) (h : step env s op = .ok (s', out)) :
+    s'.cur = if op = .advance then (s.cur + 1) % 25 else s.cur := by
+  cases op with
+  | schedule off cb p1 p2 p3 prio =>
+    obtain ⟨ho, h1, h2, h3, hp1, hp2, hok⟩ := hop
+    obtain ⟨s1, rc, he, _, hc, _⟩ := schedule_spec env s off cb p1 p2 p3 prio hinv ho h1 h2 h3 ⟨hp1, hp2⟩ hok
+    simp only [step, bind, Except.bind, he, pure, Except.pure, Except.ok.injEq, Prod.mk.injEq] at h
+    rw [← h.1, hc]; simp
+  | scheduleSet off set p3 =>
+    obtain ⟨he, hm, h3, hok⟩ := hop
+    obtain ⟨s1, rc, hee, _, hc, _⟩ := scheduleSet_spec env s off set p3 hinv he hm h3 hok
+    simp only [step, bind, Except.bind, hee, pure, Except.pure, Except.ok.injEq, Prod.mk.injEq] at h
+    rw [← h.1, hc]; simp
+  | advance =>
+    obtain ⟨he, _, _⟩ := advance_spec env s hinv
+    simp only [step, bind, Except.bind, he, pure, Except.pure, Except.ok.injEq, Prod.mk.injEq] at h
+    rw [← h.1]; simp
+  | execute =>
+    obtain ⟨s1, ran, rets, he, _, hc, _⟩ := execute_refines env s hinv henv
+    simp only [step, bind, Except.bind, he, pure, Except.pure, Except.ok.injEq, Prod.mk.injEq] at h
+    rw [← h.1, hc]; simp
+  | reset =>
+    obtain ⟨s1, he, _, hc, _⟩ := reset_spec env s hinv
+    simp only [step, bind, Except.bind, he, pure, Except.pure, Except.ok.injEq, Prod.mk.injEq] at h
+    rw [← h.1, hc]; simp
+
 end OsmoVerif.TdmaSched
